@@ -166,6 +166,7 @@ pub fn checks() -> Vec<Check> {
             st("c06.long", c06::long, (0, 0), 3, "multi-page lengths 1020k+d (k=1..3, d=-20..20), 2^k-1, 2^k, 2^k+1 for k=12..17 and 20, 200000 x 16 residues x 3 fill patterns x 3 source read modes"),
             st("c06.neighbours", c06::neighbours, (0, 0), 3, "all programs of depth <=3 over blobs, every image kind with/without mask, cloud; unique payload patterns"),
             st("c06.behind", c06::behind, (0, 0), 3, "a blob and an image with masks (one empty) behind 100 KiB .. 4 MiB of other content x {nothing, a blob, a cloud} behind them"),
+            st("c06.foreign", c06::foreign, (0, 0), 3, "3 documents x every child position of every image representation x foreign jpegImage / pngImage / imageMask elements (blob typed; inside a foreign wrapper): descriptors and data unchanged"),
             st("c06.many", c06::many, (0, 0), 3, "255 / 256 / 257 / 300 images in one file (kinds rotating, mask on every third, unique payloads): every descriptor leads to its own data"),
             st("c06.tamper", c06::tamper, (0, 0), 3, "crafted descriptors (length -1,+1,+3,+4,+16,+17,+5000,2^63,2^64-1) x section-length patches x 51 residues x 7 lengths"),
         ],
@@ -181,10 +182,10 @@ pub fn checks() -> Vec<Check> {
         id: "C07",
         level: "model_checking",
         stages: vec![
-            st("c07.f1", c07::f1, (0, 0), 3, "5 files (2-5 pages, one with the XML starting exactly at a page boundary) x every single-bit flip of every byte of every page x [validate_crc, raw_xml, open, every read op forwards and backwards on one reader]"),
-            st("c07.f2", c07::f2, (0, 0), 3, "5 files x every page x {payload byte, checksum byte, last payload byte} damaged x all read-op histories of depth 3 (thorough 4) on one reader"),
+            st("c07.f1", c07::f1, (0, 0), 3, "6 files (2-9 pages, one with the XML starting exactly at a page boundary, one with runs of identical pages) x every single-bit flip of every byte of every page x [validate_crc, raw_xml, open, every read op forwards and backwards on one reader]"),
+            st("c07.f2", c07::f2, (0, 0), 3, "6 files x every page x {payload byte, checksum byte, last payload byte} damaged x all read-op histories of depth 3 (thorough 4) on one reader"),
             st("c07.poll", c07::poll, (0, 0), 3, "2 packet geometries (17 / 300 points per packet) x cloud shifted through all 255 aligned page residues x every page of the cloud damaged (payload bit, checksum bit) x {raw, simple} iterator polled 3n+8 times past its errors: every delivered item equals the same-index item of the unaltered file"),
-            st("c07.big", c07::big, (0, 0), 3, "files of 255, 256, 257, 300, 513, 770 pages x every page damaged in turn (one payload bit, one checksum bit): validate_crc must fail, and must pass on the unaltered file"),
+            st("c07.big", c07::big, (0, 0), 3, "files of 255, 256, 257, 300, 513, 770 pages x every page damaged in turn, files of 2049, 4100, 8200 pages x the first and last 32 pages and every 32nd group of 16 pages (one payload bit, one checksum bit): validate_crc must fail, and must pass on the unaltered file"),
             Stage { hw_compare: true, ..st("c07.pagesize", c07::pagesize, (0, 0), 3, "every page size 64..=4200 and 8191, 8192, 8193, 65535, 65536, 65537, 2^20 (validate_crc / raw_xml take it from the header): 3-page images sealed with the independent CRC; unaltered image validates and yields its XML, 21 single-byte damages per image are all rejected; both CRC backends") },
             Stage { hw_compare: true, ..st("c07.f6", c07::f6, (0, 0), 3, "backend comparison: all writer programs of depth <=2 (file bytes) and damaged-file verdict vectors, executed with the built-in CRC and with the crc32c feature; per-case observations must be identical") },
         ],
@@ -227,6 +228,7 @@ pub fn checks() -> Vec<Check> {
             st("c10.protos_groups", c10::protos_groups, (0, 0), 3, "all name sequences of length 1..4 over the 9 coordinate/colour component names (every combination of missing and repeated group members)"),
             Stage { timeout_s: 120, ..st("c10.protos_wide", c10::protos_wide, (0, 0), 3, "XYZ + k extension records (64-bit / 1-bit / zero-width) for every k in 5880..5930, 20790..20830, 21650..21700, 60..64 x {1,3} points: every call returns, success implies read-back") },
             st("c10.strings", c10::strings, (0, 0), 3, "12 strings with characters XML cannot carry (NUL, C0 controls, U+FFFE/FFFF) or with carriage returns x every string field (rotation over 40 fields) x 2 image kinds: refused by some call, or stored faithfully"),
+            st("c10.image_calls", c10::image_calls, (0, 0), 3, "all sequences of <=3 representation calls (4 kinds x with/without mask) on one ImageWriter: accepted exactly when the visual / projection slot is empty; the image reads back with the accepted representations"),
             st("c10.values", c10::values, (0, 0), 3, "unstorable value (9 kinds) at every position 0..8 of a 9-point cloud x 8 integer types x 2 record slots"),
             st("c10.orders", c10::orders, (0, 0), 3, "all sequences of depth <=4 (quick) / <=5 (thorough) over 15 API sessions incl. misuse x 3 finalize modes"),
         ],
